@@ -401,6 +401,14 @@ func (c *C) orderFlow(fn *ssa.Function, reset func(ssa.Instruction) bool, allEdg
 				delete(n, f)
 			}
 		}
+		// the flag's value is known from here on: a second test of it (if grant {..}; ..; if grant {..}) follows the first
+		if feasible {
+			if neg {
+				n["PHIV|"+phi.Name()+"|F"] = true
+			} else {
+				n["PHIV|"+phi.Name()+"|T"] = true
+			}
+		}
 		return feasible
 	}
 	// boolean phis of constants (short-circuit || and && chains): remember which constant the path selected
@@ -465,6 +473,11 @@ func (c *C) orderFlow(fn *ssa.Function, reset func(ssa.Instruction) bool, allEdg
 			n := decState(e)
 			infeasible := false
 			if ok {
+				if os.Getenv("RG_DBG_OF") != "" && fn.Name() == os.Getenv("RG_DBG_OF") {
+					if _, isPhi := cond.(*ssa.Phi); isPhi {
+						fmt.Fprintf(os.Stderr, "OF %s edge %d->%d cond %s neg=%v state %v\n", fn.Name(), from.Index, to.Index, cond.Name(), neg, n)
+					}
+				}
 				if !resolveBranch(cond, neg, n, 0) {
 					infeasible = true
 				}
